@@ -268,7 +268,7 @@ fn summary_project(p: &Project) -> Option<(Vec<(String, usize, Vec<u8>)>, Vec<St
 }
 
 /// whole-word occurrences of `name` in `text`: (line, col, col_end), 0-based
-fn word_occurrences(text: &str, name: &str) -> Vec<(u64, u64, u64)> {
+pub fn word_occurrences(text: &str, name: &str) -> Vec<(u64, u64, u64)> {
     let mut out = vec![];
     for (li, line) in text.split('\n').enumerate() {
         let mut from = 0;
